@@ -70,6 +70,7 @@ type c07Seg struct {
 	P []dagshape.Ref `json:"p,omitempty"`
 	N int            `json:"n"`
 	O int            `json:"o"`
+	R int            `json:"r,omitempty"` // order of a merge's prevs header: 0 by creation, 1 highest-clock prev first, 2 last, 3 in the middle
 	W bool           `json:"w,omitempty"` // wide: the N transactions are siblings (all hang off P, same clock) instead of a chain
 }
 
@@ -83,7 +84,8 @@ type c07Seg struct {
 //	down N P     the link between node N and its P-th neighbour goes down (both ends get StateDisconnected; what is in flight on it is lost)
 //	up N P T     that link comes up again (both ends get StateConnected); T=1: N sees its peer under a new peer id (the peer restarted)
 //	sync         up to 6 fair rounds (tick all, deliver all, expire) or until all nodes hold the same set
-//	tamper I T C alter a TransactionList in flight: T=0 bad signature, 1 wrong payload, 2 wrong clock, 3 orphan, 4 no payload
+//	tamper I T C alter a TransactionList in flight: T=0 bad signature, 1 wrong payload, 2 wrong clock, 3 orphan, 4 no payload,
+//	             5 signed merge [p1,p2] with clock p1+1 <= clock of p2
 type c07Act struct {
 	K string `json:"k"`
 	N int    `json:"n,omitempty"`
@@ -139,7 +141,11 @@ func c07Gen(t *rapid.T) c07Case {
 		if len(c.Segs) == 0 {
 			own = all
 		}
-		c.Segs = append(c.Segs, c07Seg{P: prev, N: n, O: own})
+		sg := c07Seg{P: prev, N: n, O: own}
+		if len(prev) >= 2 {
+			sg.R = rapid.IntRange(0, 3).Draw(t, "prevorder")
+		}
+		c.Segs = append(c.Segs, sg)
 		eff = append(eff, own)
 		return len(c.Segs) - 1
 	}
@@ -156,6 +162,9 @@ func c07Gen(t *rapid.T) c07Case {
 			prev := []dagshape.Ref{{Seg: rapid.IntRange(0, len(c.Segs)-1).Draw(t, "pseg"), Back: back()}}
 			if rapid.IntRange(0, 3).Draw(t, "merge") == 0 {
 				prev = append(prev, dagshape.Ref{Seg: rapid.IntRange(0, len(c.Segs)-1).Draw(t, "pseg2"), Back: back()})
+				if rapid.IntRange(0, 2).Draw(t, "merge3") == 0 {
+					prev = append(prev, dagshape.Ref{Seg: rapid.IntRange(0, len(c.Segs)-1).Draw(t, "pseg3"), Back: pick("back3", 0, 2, 5)})
+				}
 			}
 			want := all
 			n := pick("len", 1, 1, 2, 3, 5, 8, 20, 40)
@@ -252,6 +261,19 @@ func c07Gen(t *rapid.T) c07Case {
 			}
 		}
 	}
+	// merge tail: the newest transactions (the ones most likely created late) merge 2-3 earlier branch points, with the prevs
+	// header in a generated order
+	switch c.Profile {
+	case "small", "identical", "behind", "disjoint", "bigdiff":
+		if len(c.Segs) >= 2 && rapid.Bool().Draw(t, "mergetail") {
+			k := pick("tailprevs", 2, 2, 3)
+			var prev []dagshape.Ref
+			for i := 0; i < k; i++ {
+				prev = append(prev, dagshape.Ref{Seg: rapid.IntRange(0, len(c.Segs)-1).Draw(t, "tseg"), Back: pick("tback", 0, 0, 1, 2, 4)})
+			}
+			seg(pick("taillen", 1, 1, 2, 3), all, prev...)
+		}
+	}
 	for i := 0; i < c.Nodes; i++ {
 		c.Late = append(c.Late, pick("late", 0, 0, 0, 1, 3, 20, 120, 150, 300))
 		if burstOwner >= 0 {
@@ -290,7 +312,7 @@ func c07Gen(t *rapid.T) c07Case {
 			a.C = pick("c", 1, 1, 2, 10, 60, 150, 400)
 		case "tamper":
 			a.I = rapid.IntRange(0, 1<<12).Draw(t, "i")
-			a.T = rapid.IntRange(0, 4).Draw(t, "t")
+			a.T = rapid.IntRange(0, 5).Draw(t, "t")
 			a.C = rapid.IntRange(0, 1<<10).Draw(t, "c")
 		}
 		c.Sched = append(c.Sched, a)
@@ -409,6 +431,63 @@ next:
 	return out
 }
 
+// c07State sits between the protocol and the node's real state only to see refused Adds: a transaction the generator built
+// to be valid (all prevs present on that node, clock = max(prev clocks)+1, really signed, right payload) must be admitted.
+type c07State struct {
+	dag.State
+	f *c07Fix
+	n *c07Node
+}
+
+func (s *c07State) Add(ctx context.Context, tx dag.Transaction, payload []byte) error {
+	err := s.State.Add(ctx, tx, payload)
+	if err != nil {
+		s.f.refused(s.n, tx, payload, err, "from-peer")
+	}
+	return err
+}
+
+// refused judges an Add that returned an error. Returns true when the refusal is a violation.
+func (f *c07Fix) refused(n *c07Node, tx dag.Transaction, payload []byte, err error, phase string) bool {
+	j, ok := f.valid[tx.Ref()]
+	if !ok || string(payload) != string(f.txs[j].payload) {
+		return false // a forgery, or a valid transaction offered with the wrong payload
+	}
+	for _, prev := range tx.Previous() {
+		if !n.have[prev] {
+			return false // causally incomplete on this node (yet): refusing is right
+		}
+	}
+	pos := "single prev"
+	if pv := tx.Previous(); len(pv) >= 2 {
+		hi := 0
+		for k := range pv {
+			if f.txs[f.valid[pv[k]]].tx.Clock() > f.txs[f.valid[pv[hi]]].tx.Clock() {
+				hi = k
+			}
+		}
+		pos = fmt.Sprintf("merge of %d, highest-clock prev at position %d", len(pv), hi)
+	} else if len(pv) == 0 {
+		pos = "root"
+	}
+	f.x.Violate("safety:valid-transaction-refused:"+phase, "step %d (%s): node %d refused valid transaction %s (clock %d, %s; all prevs present on the node, signed, payload correct): %v",
+		f.step, f.stepWhat, n.i, tx.Ref(), tx.Clock(), pos, err)
+	return true
+}
+
+// addOwn lets node n create/admit generated transaction j locally. False: refused (violation recorded), end the case.
+func (f *c07Fix) addOwn(n *c07Node, j int, phase string) bool {
+	t := f.txs[j]
+	err := n.st.Add(f.ctx, t.tx, t.payload)
+	if err == nil {
+		return true
+	}
+	if !f.refused(n, t.tx, t.payload, err, phase) {
+		f.x.Fatalf("%s of transaction %d on node %d: %v (prevs not all present: harness ordering problem)", phase, j, n.i, err)
+	}
+	return false
+}
+
 type c07NoKeys struct{}
 
 func (c07NoKeys) ResolvePublicKey(kid string, _ []hash.SHA256Hash) (crypto.PublicKey, error) {
@@ -440,6 +519,7 @@ type c07Fix struct {
 	peerOf                                                              [][]transport.Peer // peerOf[i][j]: node j as node i sees it (peer id, address, node DID or none)
 	down                                                                [][]bool           // down[i][j]: the link i-j is currently down
 	epoch                                                               [][]int            // epoch[i][j]: how often node i saw node j come back under a new peer id
+	merges                                                              []int              // indices of merge transactions (>= 2 prevs)
 	flaps, addsWhileDown, addsAfterReconnect, sendOnDownLink, deadTicks int
 	everReconnected                                                     bool
 	inflight                                                            []c07Msg
@@ -500,6 +580,30 @@ func (f *c07Fix) build() {
 		sg := nodes[j].Seg
 		if _, ok := firstOf[sg]; !ok {
 			firstOf[sg] = j
+			if pv := nodes[j].Prevs; len(pv) >= 2 {
+				pv = append([]int(nil), pv...)
+				hi := 0
+				for k := range pv {
+					if nodes[pv[k]].Clock > nodes[pv[hi]].Clock {
+						hi = k
+					}
+				}
+				to := hi
+				switch c.Segs[sg].R % 4 {
+				case 1:
+					to = 0
+				case 2:
+					to = len(pv) - 1
+				case 3:
+					to = len(pv) / 2
+				}
+				if to < 0 {
+					to = hi
+				}
+				pv[hi], pv[to] = pv[to], pv[hi]
+				nodes[j].Prevs = pv
+				f.merges = append(f.merges, j)
+			}
 		} else if sg > 0 && c.Segs[sg].W {
 			nodes[j].Prevs = nodes[firstOf[sg]].Prevs
 		}
@@ -569,7 +673,7 @@ func (f *c07Fix) newNode(i int) *c07Node {
 	}, dag.WithSelectionFilter(func(e dag.Event) bool { return e.Type == dag.TransactionEventType }))
 	x.NoErr(err, "tracking notifier")
 	cfg := Config{GossipInterval: 3_600_000, PayloadRetryDelay: time.Hour, DiagnosticsInterval: 0}
-	p := New(cfg, did.DID{}, st, nil, nil, nil, kv).(*protocol)
+	p := New(cfg, did.DID{}, &c07State{State: st, f: f, n: n}, nil, nil, nil, kv).(*protocol)
 	x.NoErr(p.Configure(""), "protocol.Configure")
 	p.cMan = newConversationManager(time.Hour) // what Start() does, minus the eviction ticker: time is data here
 	n.p = p
@@ -651,7 +755,9 @@ func (f *c07Fix) setup() {
 		}
 		f.stepWhat = "initial"
 		for _, j := range mine[:len(mine)-late] {
-			f.x.NoErr(n.st.Add(f.ctx, f.txs[j].tx, f.txs[j].payload), "initial add")
+			if !f.addOwn(n, j, "set-up") {
+				return
+			}
 		}
 		n.late = mine[len(mine)-late:]
 	}
@@ -960,7 +1066,9 @@ func (f *c07Fix) addLate(n *c07Node, k int) {
 	for ; k > 0 && len(n.late) > 0; k-- {
 		j := n.late[0]
 		n.late = n.late[1:]
-		f.x.NoErr(n.st.Add(f.ctx, f.txs[j].tx, f.txs[j].payload), "late add")
+		if !f.addOwn(n, j, "late-add") {
+			return
+		}
 	}
 }
 
@@ -968,7 +1076,7 @@ func (f *c07Fix) addLate(n *c07Node, k int) {
 func (f *c07Fix) tamper(a c07Act) bool {
 	// A forged transaction (new reference) can only get past the conversation check of a RANGE query (a list query admits
 	// requested references only), so forging kinds look for the answer to a range query first.
-	forging := a.T%5 == 0 || a.T%5 == 2 || a.T%5 == 3
+	forging := a.T%6 == 0 || a.T%6 == 2 || a.T%6 == 3 || a.T%6 == 5
 	find := func(rangeOnly bool) int {
 		for k := 0; k < len(f.inflight); k++ {
 			i := (a.I + k) % len(f.inflight)
@@ -1012,11 +1120,66 @@ func (f *c07Fix) tamper(a c07Act) bool {
 	if tl == nil || len(tl.Transactions) == 0 {
 		return false
 	}
-	e := tl.Transactions[a.C%len(tl.Transactions)]
+	ei := a.C % len(tl.Transactions)
+	if a.T%6 == 5 {
+		// prefer an entry for which the receiver already holds a parent with clock c-1 AND some transaction with clock >= c
+		rcv := f.nodes[f.inflight[at].to]
+		var top uint32
+		for ref := range rcv.have {
+			if c := f.txs[f.valid[ref]].tx.Clock(); c > top {
+				top = c
+			}
+		}
+	scan:
+		for k := 0; k < len(tl.Transactions); k++ {
+			i := (ei + k) % len(tl.Transactions)
+			t, err := dag.ParseTransaction(tl.Transactions[i].Data)
+			if err != nil || t.Clock() > top || t.Clock() == 0 {
+				continue
+			}
+			for _, pr := range t.Previous() {
+				if j, ok := f.valid[pr]; ok && rcv.have[pr] && f.txs[j].tx.Clock()+1 == t.Clock() {
+					ei = i
+					break scan
+				}
+			}
+		}
+	}
+	e := tl.Transactions[ei]
 	orig, err := dag.ParseTransaction(e.Data)
 	f.x.NoErr(err, "parse transaction in flight")
 	kind := ""
-	switch a.T % 5 {
+	switch a.T % 6 {
+	case 5: // properly signed merge [p1, p2] whose clock is p1's + 1 but NOT above p2's (p2 listed second); the receiver holds both if it can
+		kind = "lowclock-merge"
+		rcv := f.nodes[f.inflight[at].to]
+		var p1, p2 dag.Transaction
+		for _, pr := range orig.Previous() { // p1: a parent of the replaced entry with clock c-1, so the forgery stays in a requested range
+			if j, ok := f.valid[pr]; ok && f.txs[j].tx.Clock()+1 == orig.Clock() {
+				p1 = f.txs[j].tx
+			}
+		}
+		if p1 == nil {
+			return false // the root
+		}
+		for pass := 0; pass < 2 && p2 == nil; pass++ { // p2: clock >= c, preferably one the receiver already has
+			for j := range f.txs {
+				t := f.txs[j].tx
+				if t != nil && t.Clock() >= orig.Clock() && !t.Ref().Equals(orig.Ref()) && (pass == 1 || rcv.have[t.Ref()]) {
+					p2 = t
+					break
+				}
+			}
+		}
+		if p2 == nil {
+			return false
+		}
+		if rcv.have[p1.Ref()] && rcv.have[p2.Ref()] {
+			f.x.Class("fault:tamper-lowclock-merge with both prevs present at the receiver")
+		}
+		forged, payload := f.c07Forge([]hash.SHA256Hash{p1.Ref(), p2.Ref()}, p1.Clock()+1)
+		e.Data, e.Payload = forged.Data(), payload
+		f.invalid[forged.Ref()] = kind
 	case 0: // signature bytes changed: the JWS still parses, the signature is wrong; new reference
 		kind = "badsig"
 		d := append([]byte(nil), e.Data...)
@@ -1293,6 +1456,47 @@ func c07Run(x *h.Ctx, c c07Case) {
 	defer func() { h.Count(c07ID, x.Unit, "ms:profile:"+c.Profile, int(time.Since(t0).Milliseconds())) }()
 	f.build()
 	f.setup()
+	if len(x.Violations()) > 0 {
+		return // a node refused one of its own valid transactions
+	}
+	for _, j := range f.merges {
+		if f.txs[j].own == 0 {
+			continue
+		}
+		pv := f.txs[j].tx.Previous()
+		hi, ties := 0, 0
+		for k := range pv {
+			ck, ch := f.txs[f.valid[pv[k]]].tx.Clock(), f.txs[f.valid[pv[hi]]].tx.Clock()
+			if ck > ch {
+				hi, ties = k, 0
+			} else if k > 0 && ck == ch {
+				ties++
+			}
+		}
+		switch {
+		case ties > 0:
+			x.Class("merge: several prevs share the highest clock")
+		case hi == 0:
+			x.Class("merge: highest-clock prev listed first")
+		case hi == len(pv)-1:
+			x.Class("merge: highest-clock prev listed last")
+		default:
+			x.Class("merge: highest-clock prev listed in the middle")
+		}
+		if len(pv) >= 3 {
+			x.Class("merge: 3 prevs")
+		}
+		for _, n := range f.nodes {
+			for _, l := range n.late {
+				if l == j {
+					x.Class("merge: created late (after connect)")
+					if hi != 0 && ties == 0 {
+						x.Class("merge: created late, highest-clock prev not first")
+					}
+				}
+			}
+		}
+	}
 
 	// classes of the DAG pair/triple
 	x.Classf("nodes:%d", c.Nodes)
@@ -1454,6 +1658,9 @@ func c07Run(x *h.Ctx, c c07Case) {
 	for _, n := range f.nodes {
 		f.stepWhat = "late add at suffix start"
 		f.addLate(n, len(n.late))
+	}
+	if len(x.Violations()) > 0 {
+		return
 	}
 	switch {
 	case f.flaps == 0:
